@@ -448,7 +448,7 @@ class RealBusModel(BusModel):
             return []
         if isinstance(ic, wishbone.InterconnectPointToPoint):
             self.cover["finalize_point_to_point"] += 1
-            return []
+            return self.check_p2p(h, ic)
         if isinstance(ic, wishbone.InterconnectShared):
             decs = [ic.decoder]
         elif isinstance(ic, wishbone.Crossbar):
@@ -474,6 +474,54 @@ class RealBusModel(BusModel):
             self.decoders = {}          # expressions of a built design are tied to that design's address signal
             viol += self.check_decoders(names, regs, fns)
         return viol
+
+
+    _p2p_cache = {}
+
+    def check_p2p(self, h, ic):
+        """do_finalize chose InterconnectPointToPoint (no Decoder, no Timeout): bus cycles to word addresses outside the only
+        slave's decoded window must still not be presented to it (C06: 'to no slave if none matches').  Decided by driving the
+        REAL point-to-point module on the stock simulator with the first word before / after the window and the last word of
+        the address space."""
+        (mname, m), = h.masters.items()
+        (sname, s), = h.slaves.items()
+        reg = h.regions[sname]
+        B = self.dw // 8
+        nwords = 1 << len(m.adr)
+        lo, hi = reg.origin // B, (reg.origin + reg.size_pow2) // B
+        probes = [a for a in (lo - 1, hi, nwords - 1) if 0 <= a < nwords and not (lo <= a < hi)]
+        key = (reg.origin, reg.size_pow2, nwords)
+        if key not in self._p2p_cache:
+            seen = []
+            if probes:
+                from litex.gen.sim import run_simulation
+
+                def gen():
+                    for a in probes:
+                        yield m.adr.eq(a)
+                        yield m.cyc.eq(1)
+                        yield m.stb.eq(1)
+                        yield m.sel.eq(2**len(m.sel) - 1)
+                        yield
+                        yield
+                        if (yield s.cyc) and (yield s.stb):
+                            seen.append((a, (yield s.adr)))
+                        yield m.cyc.eq(0)
+                        yield m.stb.eq(0)
+                        yield
+                run_simulation(ic, gen())
+            self._p2p_cache[key] = seen
+        seen = self._p2p_cache[key]
+        self.cover["p2p_probed"] += 1
+        if not seen:
+            return []
+        a, sa = seen[0]
+        rule = "p2p.undecoded.origin0" if reg.origin == 0 else "p2p.undecoded"
+        return [dict(property="C06", rule=rule,
+                     msg=f"1 master + 1 slave: do_finalize built InterconnectPointToPoint for slave {sname!r} at {reg.origin:#x}+{reg.size:#x} "
+                         f"(decoded window {reg.size_pow2:#x}); a bus cycle to word address {a:#x} (byte {a*B:#x}), outside the window, is presented "
+                         f"to the slave (slave adr {sa:#x}) - no decoder, and no time-out either",
+                     detail=dict(origin=reg.origin, size=reg.size, probes=[hex(x) for x in probes], presented=[hex(x[0]) for x in seen]))]
 
 
 # ----------------------------------------------------------------------------------------------------------------------
